@@ -206,6 +206,11 @@ def run_case(case):
     base = {'digest': out.get('digest'), 'steps': out.get('steps', 0), 'switches': out.get('switches', 0),
             'fired': out.get('fired', {}), 'virtual_s': out.get('virtual_s', 0.0), 'picks': out.get('picks')}
     if conc.incident_violations(out, PROPERTY, violations):
+        # a row left pointing at a removed file by known finding F16 makes peekitem/popitem/peek retry for ever:
+        # the same cause, so the same signature suffix
+        sfx = _swallowed_suffix(case, out)
+        for v in violations:
+            v['sig'] += sfx
         return dict(base, violations=violations, probes=out.get('probes', {}), nontrivial=True)
     allowed_exc = ()
     for name, msg in conc.unexpected_exceptions(out):
@@ -228,13 +233,7 @@ def run_case(case):
     problems, empties, info = out['audit']
     # Known finding F16: an operation fails inside a transact() block, the block's body swallows the
     # exception and the block commits -> the file written for the failed operation has no row.
-    suffix = ''
-    if fault:
-        for h in out['history']:
-            if h['task'] == fault.get('task') and h['i'] == fault.get('op') and h['op'].get('op') == 'txn':
-                r = h['res']
-                if r and r[0] == 'ok' and r[1].startswith('commit:') and '"exc"' in r[1] and out['fired']:
-                    suffix = ':error-swallowed-inside-committed-block'
+    suffix = _swallowed_suffix(case, out)
     # stated allowance: the injected fault made the unlink itself fail
     problems = [p for p in problems if not (p[0] == 'file-unknown' and _unlink_faulted(out, p[1]))]
     if problems:
@@ -260,6 +259,19 @@ def run_case(case):
                 nontrivial=bool(out['fired']) or out['switches'] > 0 or bool(probes),
                 outcome={'ops': len(out['history']), 'rows': info.get('rows') if info else None},
                 counts=[(h['task'], h['i'], h.get('sql', 0), h.get('fs', 0)) for h in out['history']])
+
+
+def _swallowed_suffix(case, out):
+    fault = None
+    for f in case.get('faults', []):
+        fault = f
+    if fault:
+        for h in out.get('history', []):
+            if h['task'] == fault.get('task') and h['i'] == fault.get('op') and h['op'].get('op') == 'txn':
+                r = h['res']
+                if r and r[0] == 'ok' and r[1].startswith('commit:') and '"exc"' in r[1] and out.get('fired'):
+                    return ':error-swallowed-inside-committed-block'
+    return ''
 
 
 def _unlink_faulted(out, relpath):
